@@ -1682,12 +1682,20 @@ func (p *PubSub) publishMessage(msg *Message) {
 }
 
 func (p *PubSub) publishMessageBatch(batchAndOpts messageBatchAndPublishOptions) {
+	// like publishMessage, only hand the router the messages that are not local-only
+	toRouter := make([]*Message, 0, len(batchAndOpts.messages))
 	for _, msg := range batchAndOpts.messages {
 		p.tracer.DeliverMessage(msg)
 		p.notifySubs(msg)
+		if !msg.Local {
+			toRouter = append(toRouter, msg)
+		}
+	}
+	if len(toRouter) == 0 {
+		return
 	}
 	// We type checked when pushing the batch to the channel
-	p.rt.(BatchPublisher).PublishBatch(batchAndOpts.messages, batchAndOpts.opts)
+	p.rt.(BatchPublisher).PublishBatch(toRouter, batchAndOpts.opts)
 }
 
 type addTopicReq struct {
